@@ -14,7 +14,12 @@ PROP = dict(
                 "wipe_storage is true where the group destroys an account whose storage is in the database and false where it does "
                 "not destroy or the account was destroyed already -- on EMPTY storage maps: the slot list of the revert (values "
                 "before the group, RevertToSlot::{Some, Destroyed}, the wiped / not-wiped reading rule) and the restoration of "
-                "present storage values are checked by NOTHING: " + _m.KSTATES_COST + " The functions that create and apply reverts (BundleAccount::update_and_create_revert, BundleAccount::revert, "
+                "present storage values are checked by NOTHING: " + _m.KSTATES_COST + " A slot-level version on CONCRETE slot values "
+                "(kani/kstates/src/c17.rs `check_slots`, 12 instances `c17::slots_*`, e.g. a Changed account holding K1 that is destroyed "
+                "and re-created writing K1 again -- the shape of seeded change C17-1 in AccountRevert::new_selfdestructed_again) is written "
+                "but NOT registered: with every map value concrete the symbolic execution was still inside the first map operation of "
+                "update_and_create_revert after 15 min. C17-1 and the mutation 'revert restores the present instead of the recorded "
+                "value' are therefore NOT detected by ./check C17. The functions that create and apply reverts (BundleAccount::update_and_create_revert, BundleAccount::revert, "
                 "AccountRevert::new_selfdestructed*, Reverts::to_plain_state_reverts) are closures over iterator adapters and are "
                 "outside the verifier's subset, so apply-then-revert == identity is NOT proved. What IS proved (Verus, unbounded, "
                 "verbatim code): the status machine over which the revert construction branches -- all destroy / recreate / "
